@@ -148,7 +148,7 @@ def abuild(s, A, t, n):
     return f
 
 
-def json_case(ctx, n, order, tts, kind, receiver, load_order):
+def json_case(ctx, n, order, tts, kind, receiver, load_order, force_dyn=False):
     """dd.autoref dump/load of JSON: the implementation and the model run the
     same lines; the file contents travel as the dump's result and the load's
     arguments"""
@@ -191,12 +191,23 @@ def json_case(ctx, n, order, tts, kind, receiver, load_order):
         # the receiver is in use: other functions and handles
         for _ in range(2):
             abuild(s, R, ctx.rng.getrandbits(1 << n), n) if s.impl.amgr[R].vars else None
+    # a third of the loads with dynamic reordering ENABLED in the receiver and the threshold
+    # so low that requests are served in the middle of the file
+    dyn = bool(s.impl.amgr[R].vars) and (force_dyn or ctx.rng.random() < 0.34)
+    if dyn:
+        s.op(R, 'configure', True)
+        s.op(R, 'set_last_len', ctx.rng.choice([1, 2, 3]))
+        ctx.count('json:dynamic-receiver')
     got = s.op(R, 'json_load', {v: l for v, l in lv},
                {k: u for k, u in rt} if kind == 'dict' else rt,
                JNodes(tuple(x) for x in ns), load_order)
     if got is None:
         ctx.violation('C12:json-failed', f'JSON load was rejected ({s.last_result()})', case)
         return
+    if dyn:
+        if not load_order and s.impl.amgr[R]._bdd._last_len is None:
+            ctx.violation('C12:json-receiver', 'dynamic reordering is disabled after the load', case)
+        s.op(R, 'configure', False)
     gl = [h for _, h in got] if kind == 'dict' else list(got)
     if kind == 'dict' and [k for k, _ in got] != list(roots):
         ctx.violation('C12:json-roots', 'root names changed', case)
@@ -245,3 +256,11 @@ def run(ctx):
                         if rng.random() < (0.8 if q else 0.3):
                             continue
                         json_case(ctx, n, order, [t for t in tts], kind, receiver, lo)
+    # larger files read into receivers with dynamic reordering enabled: several requests are
+    # served while the file is read (nothing the loader keeps may go stale)
+    for _ in range(6 if q else 60):
+        n = rng.choice([4, 5])
+        order = rng.choice(gen.orders(4)) if n == 4 else tuple(rng.sample(range(5), 5))
+        tts = [rng.getrandbits(1 << n) for _ in range(rng.randint(3, 4))]
+        json_case(ctx, n, order, tts, rng.choice(['list', 'dict']),
+                  rng.choice(['declared-same', 'declared-other', 'same']), False, force_dyn=True)
